@@ -230,6 +230,43 @@ with notrace():          # concrete menu members; real functools caches (the job
 return (r1 == r2 and ok1 and ok2), "same"
 """
 
+SUBST_HIST = """
+vi, ui, oi = conc(vi, 8), conc(ui, 8), conc(oi, 3)
+MENU = (True, 1.0, False, 0.0, 1, 0, -0.0, "1", b"1")
+with notrace():          # concrete menu members; real functools caches (the job runs with real_lru_cache)
+    def results(x):
+        out = []
+        for S, val in ((schema.list, [x]), (schema.dict, {{"k": x}}), (schema.list([schema.int, ...]), [3, x]),
+                       (schema.dict({{"a": schema.int, ...: ...}}), {{"a": 3, "b": x}}), (schema.any, x),
+                       (schema.list(schema.any), [x, x])):
+            try:
+                R = substitute(S, val)
+                out.append((represent(R), ok_validate(R, val)))
+            except SubstitutionError:
+                out.append(("raised", True))
+        return out
+    reset_module_state()
+    r1 = results(MENU[vi])
+    reset_module_state()
+    y = MENU[ui]
+    try:                 # an earlier, unrelated operation with a value that is ==/hash-equal or not
+        if oi == 0:
+            substitute(schema.list, [y])
+        elif oi == 1:
+            substitute(schema.dict, {{"x": y, "y": [y]}})
+        elif oi == 2:
+            substitute(schema.any, y)
+            validate(schema.any, y)
+        else:
+            substitute(schema.list([schema.any, ...]), [y, y])
+            from_native(y)
+    except SubstitutionError:
+        pass
+    r2 = results(MENU[vi])
+    accepted = all(ok for _, ok in r1) and all(ok for _, ok in r2)
+return (r1 == r2 and accepted), "same"
+"""
+
 REPR_HIST = """
 A, B, C, D, E = pool(p, n, al, x, rel)
 inner = schema.dict({"a": A, "b": schema.list([B, ...])})
@@ -254,6 +291,9 @@ def harnesses(tier, seed, active_kf=()):
     out = list(H)
     out.append(mk("C07.history.from_native", "vi: int, ui: int", HIST.replace("{{", "{").replace("}}", "}"), covers=("same",),
                   pre=["0 <= vi <= 7", "0 <= ui <= 7"], timeout=120, functions=FUNCS, bounds=BOUNDS, meta={"real_lru_cache": True}))
+    out.append(mk("C07.history.substitute", "vi: int, ui: int, oi: int", SUBST_HIST.replace("{{", "{").replace("}}", "}"), covers=("same",),
+                  pre=["0 <= vi <= 8", "0 <= ui <= 8", "0 <= oi <= 3"], timeout=240, functions=FUNCS, bounds=BOUNDS,
+                  meta={"real_lru_cache": True}))
     out.append(mk("C07.history.represent", POOLP + ", first: bool", REPR_HIST, covers=("same",), pre=POOLPRE, timeout=120,
                   functions=FUNCS, bounds=BOUNDS))
     return out
